@@ -357,6 +357,19 @@ enum HeaderCategory {
     Other,
 }
 
+#[cfg(humphrey_verif)]
+impl HeaderType {
+    /// The rank of the header's (private) sort category (verification harness only).
+    pub fn verif_category(&self) -> u8 {
+        match self.category() {
+            HeaderCategory::General => 0,
+            HeaderCategory::Response => 1,
+            HeaderCategory::Entity => 2,
+            HeaderCategory::Other => 3,
+        }
+    }
+}
+
 impl HeaderType {
     fn category(&self) -> HeaderCategory {
         match self {
